@@ -8,6 +8,7 @@ use super::{
         flow::FlowItem,
         list::{ListStyle, ListStylist},
     },
+    style::FoldStyle,
     util::is_comment_node,
     ArenaDoc, Context, PrettyPrinter,
 };
@@ -91,7 +92,7 @@ impl<'a> PrettyPrinter<'a> {
         &'a self,
         ctx: Context,
         mut import_items_nodes: Vec<&'a SyntaxNode>,
-        can_reorder: bool,
+        can_reorder: bool, // no comment anywhere in the import
     ) -> ArenaDoc<'a> {
         // Sort import items if the configuration allows it.
         // The sorting is only applied if the import holds no comments and if there are no duplicate names.
@@ -108,8 +109,17 @@ impl<'a> PrettyPrinter<'a> {
                     .collect::<String>()
             });
         }
+        // On a line that also holds text nothing may break. Without a line comment the items fit on that line.
+        let no_line_comment = can_reorder
+            || !(import_items_nodes.iter()).any(|node| contains_line_comment(node));
+        let fold_style = if ctx.break_suppressed && no_line_comment {
+            FoldStyle::Always
+        } else {
+            FoldStyle::Fit
+        };
         // Note that `ImportItem` does not implement `AstNode`.
         ListStylist::new(self)
+            .with_fold_style(fold_style)
             .process_iterable_impl(
                 ctx,
                 import_items_nodes.into_iter(),
@@ -161,6 +171,11 @@ impl<'a> PrettyPrinter<'a> {
             }
         })
     }
+}
+
+/// Whether the node or any of its descendants is a line comment.
+fn contains_line_comment(node: &SyntaxNode) -> bool {
+    node.kind() == SyntaxKind::LineComment || node.children().any(contains_line_comment)
 }
 
 /// Whether the node or any of its descendants is a comment.
